@@ -70,6 +70,9 @@ P = dict(
         # zero-size / zero-capacity instances of every container, string, view, span, array, bitset and set: every callable member, vs the std counterpart
         Unit("C02_zero", "harness/C02_zero.cpp", flavours={"quick": ["asan-cc", "asan-nocc"], "thorough": ["asan-cc", "asan-nocc", "vg-cc", "clang14-cc"]},
              shards={"quick": 1, "thorough": 1}),
+        # element-converting range algorithms between pointer ranges of different element types (a bytewise fast path must require identical types)
+        Unit("C02_conv", "harness/C02_conv.cpp", flavours={"quick": ["asan-cc", "plain-cc"], "thorough": ["asan-cc", "plain-cc", "asan-nocc", "clang14-cc"]},
+             shards={"quick": 2, "thorough": 2}),
         # over-aligned element types: alignof(owner) >= alignof(T), every reachable element address aligned, UBSan alignment check on the library's accesses
         Unit("C02_align", "harness/C02_align.cpp", defs=["-Wno-invalid-offsetof"], flavours={"quick": ["asan-cc"], "thorough": ["asan-cc", "asanO0-nocc", "clang14-cc"]},
              shards={"quick": 1, "thorough": 1}),
